@@ -192,10 +192,9 @@ def t_semigroup(cls, D, N, dt, n, seed):
     return ok1 and ok2, f"{cls} D={D} N={N}: n-fold==n*dt {ok1}, -dt undoes dt {ok2}"
 
 
-def t_wave(D, N, L, dt, seed):
+def t_wave(D, N, L, dt, seed, c=1.3):
     ex, jnp = _ex()
     rng = np.random.default_rng(seed)
-    c = 1.3
     w = ex.stepper.Wave(D, L, N, dt, speed_of_sound=c)
     x = np.asarray(ex.make_grid(D, L, N))
     allm = [m for m in modes_below_nyquist(D, N)]
@@ -214,7 +213,7 @@ def t_wave(D, N, L, dt, seed):
             v1 = v1 - A * om * np.sin(om * dt) * ca + B * np.cos(om * dt) * cb
     out = np.asarray(w(jnp.asarray(np.stack([h0, v0]))))
     err = np.max(np.abs(out - np.stack([h1, v1])))
-    return err < 1e-9 * (1 + abs(dt) * 10), f"Wave D={D} N={N} L={L} dt={dt}: deviation from the analytic solution {err:.3e}"
+    return err < 1e-9 * (1 + abs(dt) * 10), f"Wave D={D} N={N} L={L} dt={dt} c={c}: deviation from the analytic solution {err:.3e}"
 
 
 TESTS = dict(exact=t_exact, semigroup=t_semigroup, wave=t_wave)
@@ -235,3 +234,5 @@ def witness(ctx):
         # domain extents on both sides of 2 pi (scaled wavenumbers 2 pi |m| / L below and above 1)
         for (L, dt) in [(2.0, 0.1), (5.0, 40.0), (20.0, 0.7), (100.0, 3.0)] + ([(2 * np.pi, 0.3), (1e3, 10.0)] if deep else []):
             ctx.check("wave", dict(D=D, N=N, L=L, dt=dt, seed=ctx.seed))
+        ctx.check("wave", dict(D=D, N=N, L=3.0, dt=-0.4, seed=ctx.seed + 1, c=0.6))          # backwards in time
+        ctx.check("wave", dict(D=D, N=N, L=9.0, dt=0.4, seed=ctx.seed + 2, c=-2.1))          # negative speed of sound: the same equation
